@@ -232,3 +232,30 @@ def loc(fi, node) -> str:
         ln = fi.node.lineno if hasattr(fi, "node") else 0
     f = fi.file if hasattr(fi, "file") else str(fi)
     return "%s:%s" % (f, ln)
+
+
+def alpha(expr):
+    """Copy of `expr` with comprehension / lambda bound variables renamed canonically (_c0, _c1, ...),
+    so that rules comparing text do not depend on how a bound variable is spelled."""
+    import copy
+    e = copy.deepcopy(expr)
+    names = {}
+    for n in ast.walk(e):
+        if isinstance(n, ast.comprehension):
+            for x in ast.walk(n.target):
+                if isinstance(x, ast.Name) and x.id not in names:
+                    names[x.id] = "_c%d" % len(names)
+        if isinstance(n, ast.Lambda):
+            for a in n.args.posonlyargs + n.args.args + n.args.kwonlyargs:
+                if a.arg not in names:
+                    names[a.arg] = "_c%d" % len(names)
+    for n in ast.walk(e):
+        if isinstance(n, ast.Name) and n.id in names:
+            n.id = names[n.id]
+        if isinstance(n, ast.arg) and n.arg in names:
+            n.arg = names[n.arg]
+    return e
+
+
+def norm_alpha(expr) -> str:
+    return norm(alpha(expr))
